@@ -144,6 +144,12 @@ func (e *Engine) c9Reject(key uint64) {
 func (e *Engine) c9Added(key uint64, added bool, nvict int) {
 	d := &e.dec9
 	if !d.active || d.key != key {
+		if !added {
+			// the applier turned a newcomer away without asking the policy: none
+			// of the causes the discipline allows (too large, already resident,
+			// out-voted by the least-frequent candidate) was established
+			e.violate("C09", "turned-away-without-decision", fmt.Sprintf("newcomer %#x was not admitted although the admission policy was never consulted for it", key), 0)
+		}
 		return
 	}
 	d.added = added
@@ -250,6 +256,14 @@ func (e *Engine) checkQuiescent(final bool) {
 	}
 	if e.plan.Flags.CostMonotone && rem < 0 {
 		e.violate("C03", "remaining-negative", fmt.Sprintf("quiescent, cost-monotone history: RemainingCost()=%d < 0 (MaxCost %d)", rem, max), 0)
+	} else if len(e.clients) == 1 && e.closer == nil && !e.raised && e.plan.Flags.NoLowerMax && !e.plan.Flags.Race {
+		// a single writer, and so far no Set gave a key a larger cost than an
+		// earlier one unless the key had been deleted and drained (or cleared)
+		// in between: no overwrite has raised a resident key's cost
+		probe(PrNoRaiseChecked)
+		if rem < 0 {
+			e.violate("C03", "remaining-negative", fmt.Sprintf("quiescent, single writer, no overwrite has raised a key's cost, MaxCost never lowered: RemainingCost()=%d < 0 (MaxCost %d)", rem, max), 0)
+		}
 	}
 	// C13
 	if e.plan.Flags.Injective {
